@@ -300,7 +300,7 @@ def mutated_set(seed, i, corpus):
     data = base["files"][name]
     ops = []
     for _ in range(rng.randint(1, 3)):
-        op = rng.choice(["byte", "delete", "dup_line", "drop_line", "multibyte", "crlf", "truncate", "truncate_clean", "trailing_backslash", "token_swap", "insert_token", "decorate", "decorate"])
+        op = rng.choice(["byte", "delete", "dup_line", "drop_line", "multibyte", "crlf", "truncate", "truncate_clean", "trailing_backslash", "token_swap", "insert_token", "decorate", "decorate", "bom"])
         ops.append(op)
         if not data:
             break
@@ -328,6 +328,9 @@ def mutated_set(seed, i, corpus):
             data = (text[:j] + rng.choice(MULTIBYTE) + text[j:]).encode()
         elif op == "crlf":
             data = data.replace(b"\r\n", b"\n").replace(b"\n", b"\r\n")
+        elif op == "bom":
+            if not data.startswith(b"\xef\xbb\xbf"):
+                data = b"\xef\xbb\xbf" + data
         elif op == "truncate":
             j = rng.randrange(len(data))
             data = data[:j]
@@ -380,7 +383,7 @@ def mutated_set(seed, i, corpus):
 
 
 # ---------------------------------------------------------------- running --
-def one_run(wd, order, entropy, clock, pid, opts, env_extra=None, stdout_file=False, aslr=False, out_dir=True, exe=None):
+def one_run(wd, order, entropy, clock, pid, opts, env_extra=None, stdout_file=False, aslr=False, out_dir=True, exe=None, arte_norm=None):
     env = sim_env(base_env(env_extra), entropy=entropy, clock=clock, pid=pid)
     shutil.rmtree(os.path.join(wd, "out"), ignore_errors=True)
     argv = [exe or PENNE, "emit"] + (["--out-dir", "out"] if out_dir else []) + list(opts) + list(order)
@@ -392,8 +395,49 @@ def one_run(wd, order, entropy, clock, pid, opts, env_extra=None, stdout_file=Fa
             for n in sorted(names):
                 p = os.path.join(dp, n)
                 with open(p, "rb") as f:
-                    arte[os.path.relpath(p, od)] = sha(f.read())
+                    data = f.read()
+                arte[os.path.relpath(p, od)] = sha(arte_norm(data) if arte_norm else data)
     return r, arte
+
+
+class FifoFeeder:
+    """Puts a named pipe where a source file was and feeds it the file's bytes
+    when (and if) the compiler opens it. The thread decides nothing: the bytes
+    and their order are fixed; it only waits for a reader."""
+
+    def __init__(self, path, data):
+        import threading
+        self.path, self.data = path, data
+        self.done = threading.Event()
+        os.unlink(path)
+        os.mkfifo(path)
+        self.thread = threading.Thread(target=self._run, daemon=True)
+        self.thread.start()
+
+    def _run(self):
+        fd = None
+        while not self.done.is_set():
+            try:
+                fd = os.open(self.path, os.O_WRONLY | os.O_NONBLOCK)
+                break
+            except OSError:
+                time.sleep(0.001)
+        if fd is None:
+            return
+        try:
+            os.set_blocking(fd, True)
+            view = memoryview(self.data)
+            while len(view):
+                n = os.write(fd, view[:65536])
+                view = view[n:]
+        except OSError:
+            pass
+        finally:
+            os.close(fd)
+
+    def stop(self):
+        self.done.set()
+        self.thread.join(timeout=5)
 
 
 def verdict_of(r):
@@ -514,6 +558,60 @@ def evaluate_set(s, wd, cfg, rng, stats):
             viol.append(("environment_dependent_output", "another current directory, file times, clutter, executable name and environment -> %s, baseline -> %s\n--- stderr there\n%s\n--- stderr baseline\n%s" %
                          (v, first[1], r.err.decode(errors="replace")[-600:], first[3].err.decode(errors="replace")[-600:]), {"ambient": True}))
         shutil.rmtree(os.path.join(wd, "elsewhere"), ignore_errors=True)
+    # D2c: the same bytes reaching the compiler in another way - an equivalent
+    # spelling of the path (`a//b.pn`, `a/./b.pn`), an absolute path, a named
+    # pipe instead of a regular file: only the printed name may change
+    if not viol and not panicked:
+        plain = [n for n in order if ":" not in n]
+        kinds = []
+        if any("/" in n for n in plain):
+            kinds.append("spelling")
+        if len(s["files"]) == 1 and len(order) == 1 and plain:
+            kinds.append("absolute")
+        if plain and all(n in s["files"] for n in plain) and len(set(order)) == len(order):
+            kinds.append("fifo")    # (a pipe can be read once: not when a file is named twice)
+        kind = kinds[stats["sets"] % len(kinds)] if kinds else None
+        if kind:
+            wd3 = os.path.join(wd, "again")
+            fresh_dir(wd3)
+            write_files(wd3, s["files"])
+            pairs = []
+            order3 = list(order)
+            feeder = None
+            if kind == "spelling":
+                sep = "//" if stats["sets"] % 2 else "/./"
+                order3 = [n.replace("/", sep, 1) if (":" not in n and "/" in n) else n for n in order]
+                pairs = [(b.encode(), a.encode()) for a, b in zip(order, order3) if a != b]
+            elif kind == "absolute":
+                order3 = [os.path.join(wd3, n) if ":" not in n else n for n in order]
+                pairs = [((wd3 + "/").encode(), b"")]
+            else:
+                victim = plain[stats["sets"] % len(plain)]
+                feeder = FifoFeeder(os.path.join(wd3, victim), s["files"][victim])
+            clock, pid = sim_params()
+
+            def unspell(data):
+                for a, b in pairs:
+                    data = data.replace(a, b)
+                return data
+            try:
+                r, arte = one_run(wd3, order3, seeds[0], clock, pid, base_opts, out_dir=(kind != "absolute"), arte_norm=unspell)
+            finally:
+                if feeder:
+                    feeder.stop()
+            stats["runs"] += 1
+            stats["delivery_runs"] = stats.get("delivery_runs", 0) + 1
+            out3, err3 = unspell(r.out), unspell(r.err)
+            v = (r.status(), sha(out3), sha(err3))
+            base_v = first[1]
+            if kind == "absolute":
+                # without --out-dir the artefact announcement differs; diagnostics and verdict are compared
+                v = (v[0], v[2])
+                base_v = (first[1][0], first[1][2])
+            if v != base_v or (kind != "absolute" and arte != first[2]):
+                viol.append(("environment_dependent_output", "%s delivery of the same bytes (%s) -> %s, baseline -> %s\n--- stderr there\n%s\n--- stderr baseline\n%s" %
+                             (kind, order3, v, base_v, err3.decode(errors="replace")[-600:], first[3].err.decode(errors="replace")[-600:]), {"delivery": kind}))
+            shutil.rmtree(wd3, ignore_errors=True)
     # D3: rendering in every colour x charset configuration
     if stats["sets"] % cfg["d3_every"] == 0 or panicked:
         clock, pid = sim_params()
@@ -799,7 +897,7 @@ def run(tier, seed):
         if budget and time.time() - t0 > budget:
             break
     tot = {"runs": 0, "compiler_panics": 0, "sets_with_diagnostics": 0, "render_configs": 0, "locations_checked": 0,
-           "verbose_runs": 0, "named_spans_checked": 0, "messages_checked": 0, "lexical_spans_checked": 0, "secondary_spans_checked": 0, "ambient_runs": 0}
+           "verbose_runs": 0, "named_spans_checked": 0, "messages_checked": 0, "lexical_spans_checked": 0, "secondary_spans_checked": 0, "ambient_runs": 0, "delivery_runs": 0}
     diag_lists = set()
     by_kind = {}
     multi = 0
@@ -865,6 +963,7 @@ def run(tier, seed):
         "report_messages_checked": tot["messages_checked"],
         "verbose_mode_runs": tot["verbose_runs"],
         "ambient_variation_runs": tot["ambient_runs"],
+        "delivery_variation_runs": tot["delivery_runs"],
         "large_program_run_build_executions": large_runs,
         "aslr_probe_sets": aslr_n,
         "aslr_probe_differences": aslr_diff,
